@@ -119,12 +119,13 @@ def ae2_rules(facts, rep):
     nw = facts.one(r"^crc32::Crc32Reader::<R>::new$")
     exn = Ex(nw)
     for bi, si, s, flds in aggregates(nw, r"crc32::Crc32Reader$"):
-        a = norm(exn.operand(flds["ae2_encrypted"], (bi, si)))
-        c = norm(exn.operand(flds["check"], (bi, si)))
-        h = norm(exn.operand(flds["hasher"], (bi, si)))
-        good = a[0] == "arg" and a[2] == "ae2_encrypted" and c[0] == "arg" and c[2] == "checksum" and h[0] == "call" and h[1].endswith("Hasher::new")
-        ok &= rep.check(good, rule, "Crc32Reader::new-fields", where(nw, s["span"]), "check := checksum, ae2 := flag, hasher := fresh",
-                        "Crc32Reader::new stores check=%s ae2=%s hasher=%s" % (show(c), show(a), show(h)))
+        vals_ = {k_: norm(exn.operand(o_, (bi, si))) for k_, o_ in flds.items()}      # by role, not by (private) field name
+        a = [v_ for v_ in vals_.values() if v_[0] == "arg" and v_[2] == "ae2_encrypted"]
+        c = [v_ for v_ in vals_.values() if v_[0] == "arg" and v_[2] == "checksum"]
+        h = [v_ for v_ in vals_.values() if v_[0] == "call" and v_[1].endswith("Hasher::new")]
+        good = len(a) == 1 and len(c) == 1 and len(h) == 1 and len(vals_) == 4
+        ok &= rep.check(good, rule, "Crc32Reader::new-fields", where(nw, s["span"]), "expected := checksum, ae2 := flag, hasher := fresh",
+                        "Crc32Reader::new stores %s" % {k_: show(v_) for k_, v_ in vals_.items()})
     return ok
 
 
@@ -134,7 +135,8 @@ def table_rules(facts, rep):
     f = facts.method(r"^crc32::Crc32Reader<", "read", r"std::io::Read")
     ps = paths(f)
     rep.count("paths", len(ps))
-    A_EMPTY, A_MATCH, A_AE2 = r"is_empty\(buf\)", r"check_matches\(", r"ae2_encrypted"
+    # "checksum matches" is the helper's answer, or the comparison it stands for written in place
+    A_EMPTY, A_MATCH, A_AE2 = r"is_empty\(buf\)", r"check_matches\(|^Eq\(self\.\w+, Hasher::finalize\(|^Eq\(Hasher::finalize\(.*, self\.\w+\)$", r"ae2_encrypted"
     A_RES, A_N = r"^discr\(.*Read::read\(self\.inner", r"^ok\(.*Read::read\(self\.inner"
     n_err_new = 0
     for p in ps:
@@ -185,10 +187,24 @@ def table_rules(facts, rep):
                     "Crc32Reader::read additionally branches on %s -- a state under which the end-of-file check can be skipped" % sorted(extra_atoms))
     ok &= rep.check(n_err_new >= 1, rule, "must-fail-row-present", where(f, f.span), "the must-fail row exists", "no path raises the checksum error any more")
     # check_matches compares the stored check with the finalised hash by equality
-    cm = facts.one(r"^crc32::Crc32Reader::<R>::check_matches$")
-    ras = ret_alts(cm)
-    good = len(ras) == 1 and ras[0][0] == "bin" and ras[0][1] == "Eq" and ".check" in tokens(ras[0]) and "finalize()" in tokens(ras[0]) and ".hasher" in tokens(ras[0])
-    ok &= rep.check(good, rule, "check_matches", where(cm, cm.span), "check == hasher.clone().finalize()", "check_matches computes %s" % [show(a) for a in ras])
+    # the comparison itself: the stored expected value (set from the constructor's checksum argument) == hasher.clone().finalize()
+    cms = facts.find(r"^crc32::Crc32Reader::<R>::check_matches$")
+    nwf = facts.one(r"^crc32::Crc32Reader::<R>::new$")
+    exn_ = Ex(nwf)
+    stored = [k_ for bi_, si_, s_, fl_ in aggregates(nwf, r"crc32::Crc32Reader$") for k_, o_ in fl_.items() if norm(exn_.operand(o_, (bi_, si_))) == ("arg", 2, "checksum")]
+    if cms:
+        ras = ret_alts(cms[0])
+        cmp_ = ras[0] if len(ras) == 1 else None
+        site = cms[0]
+    else:
+        exr = Ex(f)
+        cands = [d_ for _, _, d_ in find_switch_on(f, lambda d: True)]
+        eqs = [x for b_, si_, s_ in f.stmts() if s_["k"] == "assign" and s_["rv"]["k"] == "binop" and s_["rv"]["op"] == "Eq"
+               for x in [norm(exr.rvalue(s_["rv"], (b_, si_)))] if any(y[0] == "call" and y[1].endswith("Hasher::finalize") for y in walk(x))]
+        cmp_ = eqs[0] if len(eqs) == 1 else None
+        site = f
+    good = cmp_ is not None and cmp_[0] == "bin" and cmp_[1] == "Eq" and len(stored) == 1 and ("." + stored[0]) in tokens(cmp_) and "finalize()" in tokens(cmp_) and ".hasher" in tokens(cmp_)
+    ok &= rep.check(good, rule, "check_matches", where(site, site.span), "expected checksum == hasher.clone().finalize()", "the checksum comparison is %s" % (show(cmp_) if cmp_ else "missing or ambiguous"))
     rep.floor(rule, 8)
     return ok
 
